@@ -69,6 +69,7 @@ the container type of the read-outs (list / ndarray / dict view), to_dataframe()
 """
 import hashlib
 
+from .. import isolation
 from ..common import Shard, failure, outcome, HarnessError
 
 PROPERTY = "C20"
@@ -867,6 +868,16 @@ def _rc_run(cname, hist):
     return rc, model, None
 
 
+def init_worker():
+    from scinumtools import RowCollector, ParameterTable, DataPlotGrid, DataCombination
+    import scinumtools as _d
+    classes = [RowCollector, ParameterTable, DataPlotGrid, DataCombination]
+    for n in ("ParameterSettings",):
+        if hasattr(_d, n):
+            classes.append(getattr(_d, n))
+    isolation.class_state_snapshot(classes)
+
+
 # ================================================================================================ E1 drivers
 def _e1_run(part, name, hist, cfg):
     """(object, model, failure, nonempty-before-last-op)"""
@@ -874,13 +885,58 @@ def _e1_run(part, name, hist, cfg):
         if part == "pt":
             return _pt_run(name == "keyed", hist, cfg)
         return _rc_run(name, hist)
+    isolation.class_state_restore()          # nothing an earlier history left on the classes can reach this one
     o = outcome(go)
+    if o[0] == "ok" and o[1][2] is None and len(hist) <= LATER_DEPTH:
+        # a SECOND object built while the first one is alive must behave like a new one (the simple model has no
+        # state outside the object): every short continuation from "new" is verified on it, in every configuration
+        # of the same helper, before the class-level state is put back
+        later = outcome(_later_instance, part, name, cfg)
+        if later[0] == "err" or later[1] is not None:
+            sub = ("table-" + name) if part == "pt" else ("rows-" + name)
+            inner = later[1] if later[0] == "ok" else dict(behaviour="execution-" + later[1], observed=list(later[1:]),
+                                                          expected="history executes", case={})
+            isolation.class_state_restore()
+            return o[1][0], o[1][1], failure(
+                sub, dict(part=sub, history=hist, tier_bounds=dict(keys=(cfg or {}).get("keys")),
+                          later=inner.get("case")),
+                dict(later_instance=inner.get("expected")), dict(later_instance=inner.get("observed")),
+                tags=["later-instance", "first-history-last=" + hist[-1][0]],
+                behaviour="later-instance:" + str(inner.get("behaviour")))
+    isolation.class_state_restore()
     if o[0] == "err":
         sub = ("table-" + name) if part == "pt" else ("rows-" + name)
         return None, None, failure(sub, dict(part=sub, history=hist, tier_bounds=dict(keys=(cfg or {}).get("keys"))),
                                    "history executes", list(o[1:]), tags=["harness-level"],
                                    behaviour="execution-" + o[1])
     return o[1]
+
+
+LATER_DEPTH = 4          # histories of at most this length (root + 3 operations) are followed by the later-instance probe
+
+
+def _later_instance(part, name, cfg):
+    """every history  new, op  (and  new  alone) on fresh objects of every configuration of the helper"""
+    if part == "pt":
+        todo = [(True, cfg), (False, cfg)]
+        for keyed, c in todo:
+            t, m, bad = _pt_run(keyed, [["new"]], c)
+            if bad:
+                return bad
+            for op in _pt_ops(keyed, c, m if keyed else None, False):
+                bad = _pt_run(keyed, [["new"], op], c)[2]
+                if bad:
+                    return bad
+        return None
+    for cname in RC_CFG:
+        rc, m, bad = _rc_run(cname, [["new"]])
+        if bad:
+            return bad
+        for op in _rc_ops(cname, m, False):
+            bad = _rc_run(cname, [["new"], op])[2]
+            if bad:
+                return bad
+    return None
 
 
 def _e1_ops(part, name, model, cfg, fine=True):
